@@ -171,7 +171,9 @@ func (c *ctx) runOp(line string) string {
 			return "ignoredShort"
 		case r.Fetched && !r.Found:
 			return fmt.Sprintf("discard id=%d", r.FetchedID)
-		case r.Found && !r.Completed:
+		case r.Found && !r.Completed, r.Completed && strings.HasPrefix(r.CompletedErr, "response type"):
+			// the call was taken out of the pending table and its type differs; whether the
+			// call is then failed (repaired tree) or dropped (pinned tree) is C03/C04's subject
 			return fmt.Sprintf("mistyped id=%d", r.FetchedID)
 		case r.Completed && r.CompletedErr != "":
 			return fmt.Sprintf("completeErr id=%d", r.FetchedID)
